@@ -158,6 +158,9 @@ func (x *Exec) alternatives() []string {
 }
 
 func (x *Exec) apply(alt string) {
+	if alt != "tick" {
+		x.timeIdle = false // new activity may arm new timers
+	}
 	switch {
 	case strings.HasPrefix(alt, "g:"):
 		rest := alt[2:]
